@@ -28,7 +28,9 @@ SPEC = {
     "level_text": (
         "Seeded search over interleavings of the individual engine calls of 2-3 concurrent sessions (uniform random, PCT with 1-3 "
         "priority changes, window-targeted, stall-one-session and serial strategies); every run is checked for raised/hung operations and by an exact "
-        "serial-order search against a small executable model, then for final-state equality. Sampling, not enumeration: a clean batch is evidence, not proof."
+        "serial-order search against a small executable model, then for final-state equality. A tenth of the runs are the keyed scenario: overlapping "
+        "transactions inserting the same PRIMARY KEY value (the engine may refuse one - tolerated), checked for 'an acknowledged insert is never lost, a refused one leaves nothing'. "
+        "Sampling, not enumeration: a clean batch is evidence, not proof."
     ),
     "level_note": (
         "Trusted: the DuckDB engine is atomic per call; pre-emption only at engine calls/op boundaries; the tiny model of the generated op subset. "
@@ -47,14 +49,110 @@ SPEC = {
         "one DuckDB call is atomic (no interleaving inside the engine)",
         "pre-emption points are engine calls and operation boundaries only; pure-Python sections of fakesnow between two engine calls run atomically",
     ],
-    "mandatory_probes": {"any": ["preempt_inside_op", "connect_overlap"]},
+    "mandatory_probes": {"any": ["preempt_inside_op", "connect_overlap", "keyed_scenario", "keyed_refused"]},
 }
 
 
 # --------------------------------------------------------------------------- generation
 
 
+def gen_keyed(rng: Any) -> dict[str, Any]:
+    """Transactions of concurrent sessions inserting the SAME key into a table with a PRIMARY KEY. The engine may refuse
+    one of them (statements may fail here - conflicting writes); what the property still says is that an insert
+    whose transaction was acknowledged is never lost, and a refused one leaves nothing behind."""
+    k = rng.choice([2, 2, 3])
+    ops: list[dict[str, Any]] = []
+    for i in range(k):
+        sid = f"s{i}"
+        ops.append({"s": sid, "k": "connect", "database": DB, "schema": SC, "tag": "connect"})
+        keys = rng.sample([1, 2, 3], rng.choice([1, 2]))
+        for rnd, key in enumerate(keys):
+            txn = rng.random() < 0.8
+            if txn:
+                ops.append({"s": sid, "k": "exec", "tag": "begin", "round": rnd, "sql": "BEGIN"})
+            ops.append({"s": sid, "k": "exec", "tag": "ins_keyed", "round": rnd, "key": key, "sql": f"INSERT INTO {DB}.{SC}.KEYED VALUES ({key}, '{sid}')"})
+            if txn:
+                if rng.random() < 0.3:
+                    ops.append({"s": sid, "k": "commit", "tag": "commit", "round": rnd})
+                else:
+                    ops.append({"s": sid, "k": "exec", "tag": "commit", "round": rnd, "sql": "COMMIT"})
+                ops.append({"s": sid, "k": "exec", "tag": "rollback", "round": rnd, "sql": "ROLLBACK"})  # no-op after a successful COMMIT, ends a refused transaction
+    return {
+        "profile": NAME,
+        "config": {"k": k, "mode": "keyed", "hazards": {}},
+        "strategy": rng.choice(["random", "pct", "targeted", "stall"]),
+        "pct_depth": rng.choice([1, 2, 3]),
+        "pct_horizon": 10 * k + 6 * len(ops),
+        "sched_seed": rng.getrandbits(48),
+        "ops": ops,
+    }
+
+
+def run_keyed(case: dict[str, Any]) -> dict[str, Any]:
+    sim = core.begin()
+    world = World(sim)
+    violations: list[dict[str, Any]] = []
+    probes: dict[str, int] = {"keyed_scenario": 1}
+    try:
+        with sim.quiet():
+            setup = world.fs.connect(database=DB, schema=SC)
+            setup.cursor().execute(f"CREATE TABLE {DB}.{SC}.KEYED (id int PRIMARY KEY, who varchar(10))")
+        res = run_threaded(sim, world, case, case["ops"])
+        history = res["history"]
+        probes["preempt_inside_op"] = res["preemptions"]
+        if res["deadlock"]:
+            violations.append(v_("hang/deadlock", "every live session is blocked on a lock", {"blocked": res["blocked"]}))
+        with sim.quiet():
+            final = sorted(norm_rows(setup.cursor().execute(f"SELECT id, who FROM {DB}.{SC}.KEYED").fetchall()), key=sort_key)
+        rounds: dict[tuple[str, int], dict[str, Any]] = {}
+        for h in sorted(history, key=lambda x: x["inv"]):
+            op = h["op"]
+            if op.get("tag") == "connect":
+                if not h["out"].get("ok"):
+                    violations.append(v_("raises/connect/" + str(h["out"].get("exc")), "connect failed", {"op": op, "outcome": h["out"]}))
+                continue
+            r = rounds.setdefault((h["s"], op["round"]), {"s": h["s"], "ok": True, "key": None, "failed": []})
+            if op.get("tag") == "ins_keyed":
+                r["key"] = op["key"]
+            if op.get("tag") == "rollback":
+                if not h["out"].get("ok"):
+                    violations.append(v_("raises/rollback/" + str(h["out"].get("exc")), "ROLLBACK must always succeed", {"op": op, "outcome": h["out"]}))
+                continue
+            if not h["out"].get("ok"):
+                r["ok"] = False
+                r["failed"].append([op.get("tag"), h["out"].get("exc")])
+                probes["keyed_refused"] = probes.get("keyed_refused", 0) + 1
+        if not violations:
+            per_key: dict[int, list[str]] = {}
+            for key, who in final:
+                per_key.setdefault(key, []).append(who)
+            for (sid, _rnd), r in sorted(rounds.items()):
+                present = sid in per_key.get(r["key"], [])
+                if r["ok"] and not present:
+                    violations.append(v_("acknowledged-insert-lost/keyed", "an insert whose statements (and COMMIT) were all acknowledged is missing at the end",
+                                         {"session": sid, "key": r["key"], "final": final, "rounds": {f"{a}/{b}": v for (a, b), v in rounds.items()}}))
+                    break
+                if not r["ok"] and present:
+                    violations.append(v_("refused-insert-present/keyed", "an insert that was refused (statement or COMMIT raised) is in the table",
+                                         {"session": sid, "key": r["key"], "failed": r["failed"], "final": final}))
+                    break
+            if not violations and any(len(v) > 1 for v in per_key.values()):
+                violations.append(v_("duplicate-key/keyed", "two rows with one primary key", {"final": final}))
+        inter = fp([(r[1], r[3]) for r in sim.log if len(r) > 3 and r[2] == "E"])
+        return {
+            "violations": violations, "digest": sim.digest(), "steps": sim.engine_events, "ops": len(history), "schedule": res["schedule"],
+            "preemptions": res["preemptions"], "strategy": case["strategy"], "probes": probes, "faults": {"preemption": res["preemptions"]},
+            "interleaving": inter, "fingerprint": fp([[(o["s"], o.get("tag")) for o in case["ops"]], inter]), "nontrivial": res["preemptions"] > 0,
+            "state_hash": fp(final) if not violations else None,
+        }
+    finally:
+        world.close()
+        core.end()
+
+
 def gen(rng: Any, prop: str, tier: str) -> dict[str, Any]:
+    if rng.random() < 0.1:
+        return gen_keyed(rng)
     k = rng.choice([2, 2, 2, 3])
     # known-hazard switches (DESIGN.md section 4): off in ~85 % of runs so that model and system stay in lock-step
     hazards = {"half_meta": rng.random() < 0.15, "half_merge": rng.random() < 0.15}
@@ -285,6 +383,8 @@ def serial_order_search(history: list[dict[str, Any]], init: dict[str, Any], fin
 
 
 def run(case: dict[str, Any]) -> dict[str, Any]:
+    if case["config"].get("mode") == "keyed":
+        return run_keyed(case)
     sim = core.begin()
     cfg = case["config"]
     world = World(sim)
